@@ -99,9 +99,170 @@ int main() {
 
 
 def replayer_for(pid):
-    if pid != 'C05':
+    if pid == 'C05':
+        return replay_decoder
+    if pid in ('C19', 'C20'):
+        return replay_numeric
+    return None
+
+
+# ---- C19 / C20: the z3 model of a failed VC gives concrete arguments; the real function is called with them and the
+# ---- failed postcondition is re-evaluated on the real result with exact rational arithmetic -------------------------
+NUMERIC = {
+    'djinterop::engine::util::waveform_quantisation_number': ('long long', 'djinterop::engine::util::waveform_quantisation_number(sample_rate)', ['src/djinterop/engine/track_utils.hpp']),
+    'djinterop::engine::util::calculate_high_resolution_waveform_extents': ('extents', 'djinterop::engine::util::calculate_high_resolution_waveform_extents(sample_count, sample_rate)', ['src/djinterop/engine/track_utils.hpp']),
+    'djinterop::engine::util::calculate_overview_waveform_extents': ('extents', 'djinterop::engine::util::calculate_overview_waveform_extents(sample_count, sample_rate)', ['src/djinterop/engine/track_utils.hpp']),
+    'djinterop::engine::calculate_high_resolution_waveform_extents': ('extents', 'djinterop::engine::calculate_high_resolution_waveform_extents(sample_count, sample_rate)', ['src/djinterop/engine/engine.cpp']),
+    'djinterop::engine::calculate_overview_waveform_extents': ('extents', 'djinterop::engine::calculate_overview_waveform_extents(sample_count, sample_rate)', ['src/djinterop/engine/engine.cpp']),
+    'djinterop::engine::normalize_beatgrid': ('grid', 'djinterop::engine::normalize_beatgrid(beatgrid, sample_count)', ['src/djinterop/engine/engine.cpp']),
+}
+
+
+def _frac(s):
+    from fractions import Fraction
+    s = s.strip().rstrip('?')
+    try:
+        return Fraction(s)
+    except Exception:
         return None
-    return replay_decoder
+
+
+def replay_numeric(pid, P, specs, r, failed, outdir):
+    from fractions import Fraction
+    key = r.key.split('@')[0]
+    if key not in NUMERIC or r.backend != 'vcgen':
+        return None
+    kind, call, tus = NUMERIC[key]
+    o = next((x for x in failed if x.get('model')), None)
+    if o is None:
+        return None
+    model = o['model']
+    # arguments: scalars are model constants named <param>!<n>; the grid is read from its arrays
+    def scalar(name):
+        for k, v in model.items():
+            if k.startswith(name + '!'):
+                return _frac(v)
+        return None
+    sc = scalar('sample_count')
+    if sc is None:
+        sc = Fraction(0)
+    lines = ['#include <cstdio>', '#include <vector>', '#include <stdexcept>', '#include <djinterop/djinterop.hpp>'] + ['#include "%s/%s"' % (REPO, t) for t in tus if t.endswith('.hpp')]
+    body = []
+    if kind == 'grid':
+        n = scalar('beatgrid.size')
+        if n is None or n > 64:
+            return {'verdict': 'no-input', 'detail': 'model grid too large to replay (%s markers)' % n}
+        idx = _array(model, 'beatgrid.index[]', int(n))
+        off = _array(model, 'beatgrid.sample_offset[]', int(n))
+        if idx is None or off is None:
+            return {'verdict': 'no-input', 'detail': 'could not read the grid out of the z3 model'}
+        body.append('std::vector<djinterop::beatgrid_marker> beatgrid{%s};' % ', '.join('{%d, %s}' % (int(i), _dbl(f)) for i, f in zip(idx, off)))
+        body.append('long long sample_count = %dLL;' % int(sc))
+        body.append('try { auto g = %s; std::printf("[");  for (size_t i = 0; i < g.size(); ++i) std::printf("%%s[%%d, %%a]", i ? "," : "", g[i].index, g[i].sample_offset); std::printf("]\\n"); } catch (const std::invalid_argument&) { std::printf("\\"invalid_argument\\"\\n"); }' % call)
+        inputs = {'beatgrid': [[int(i), str(f)] for i, f in zip(idx, off)], 'sample_count': int(sc)}
+    else:
+        rate = scalar('sample_rate') or Fraction(0)
+        body.append('unsigned long long sample_count = %dULL; double sample_rate = %s;' % (int(sc), _dbl(rate)))
+        if kind == 'extents':
+            body.append('auto e = %s; std::printf("[%%llu, %%a]\\n", e.size, e.samples_per_entry);' % call)
+        else:
+            body.append('std::printf("[%%lld]\\n", (long long)%s);' % call)
+        inputs = {'sample_count': int(sc), 'sample_rate': str(rate)}
+    src = os.path.join(outdir, 'replay_numeric.cpp')
+    exe = src[:-4]
+    open(src, 'w').write('\n'.join(lines) + '\nint main() {\n  ' + '\n  '.join(body) + '\n  return 0;\n}\n')
+    gen = cbmcdrv.gen_dir(REPO, outdir)
+    srcs = [src] + [os.path.join(REPO, t) for t in tus if t.endswith('.cpp')]
+    cmd = ['g++', '-std=c++17', '-O1', '-g', '-fsanitize=address,undefined', '-fsanitize=float-cast-overflow', '-fno-sanitize-recover=undefined', '-I%s/include' % REPO, '-I' + gen, '-I%s/src' % REPO,
+           '-I%s/ext/sqlite_modern_cpp' % REPO, '-I%s/ext/date' % REPO, '-I%s/ext/sqlite-amalgamation' % REPO] + srcs + ['-o', exe]
+    blib = '/repo/_build'
+    if any(t.endswith('.cpp') for t in tus) and os.path.exists(os.path.join(blib, 'libdjinterop.so')):
+        # the translation unit under test is compiled from the working tree; the rest of the library comes from the
+        # existing build (the executable's own definitions take precedence over the shared object's)
+        cmd += ['-L' + blib, '-ldjinterop', '-Wl,-rpath,' + blib]
+    p = subprocess.run(cmd, stdout=subprocess.PIPE, stderr=subprocess.PIPE, text=True)
+    if p.returncode != 0:
+        # engine.cpp needs the rest of the library: link against the real objects instead
+        return {'verdict': 'replay-undecided', 'detail': 'native harness does not link stand-alone: %s' % p.stderr[-400:], 'inputs': inputs}
+    q = subprocess.run([exe], stdout=subprocess.PIPE, stderr=subprocess.PIPE, text=True, timeout=20)
+    san = q.returncode != 0 or 'runtime error' in q.stderr or 'AddressSanitizer' in q.stderr
+    verdict_eval = None
+    if not san and kind in ('extents', 'long long'):
+        verdict_eval = _eval_post(specs, r.key, o, inputs, q.stdout.strip(), kind)
+    if verdict_eval is False:
+        return {'verdict': 'reproduced', 'inputs': inputs, 'real_output': q.stdout.strip()[:600],
+                'note': 'the real function was called with the arguments of the z3 model and the failed postcondition evaluates to false on its real result (exact rational arithmetic)'}
+    return {'verdict': 'reproduced' if san else 'see-output', 'inputs': inputs, 'real_output': q.stdout.strip()[:600], 'stderr': q.stderr[-600:],
+            'note': 'real function called with the arguments of the z3 model; a sanitizer report counts as reproduced, otherwise compare real_output with the failed postcondition'}
+
+
+def _eval_post(specs, key, o, inputs, out, kind):
+    """evaluate the failed `ensures <name>` of the contract on the real result, with exact arithmetic"""
+    from fractions import Fraction
+    import json as _json, math
+    m = re.match(r'ensures (\w+)', o['desc'])
+    sp = specs.get(key)
+    if not m or sp is None or m.group(1) not in sp.ensures:
+        return None
+    try:
+        vals = _json.loads(re.sub(r'0x[0-9a-fA-F.]+p[+-]?\d+', lambda mm: '"%s"' % mm.group(0), out))
+    except Exception:
+        return None
+    class R: pass
+    ret = R()
+    if kind == 'extents':
+        ret.size = int(vals[0]); ret.samples_per_entry = Fraction(float.fromhex(vals[1]))
+    else:
+        ret = int(vals[0])
+    def ToInt(x): return math.floor(x)
+    def ToReal(x): return Fraction(x)
+    ns = {'And': lambda *a: all(a), 'Or': lambda *a: any(a), 'Not': lambda a: not a, 'Implies': lambda a, b: (not a) or b, 'If': lambda c, a, b: a if c else b,
+          'ToInt': ToInt, 'ToReal': ToReal, 'ret': ret, 'sample_count': int(inputs['sample_count']), 'sample_rate': Fraction(inputs['sample_rate'])}
+    class IntDiv(int):
+        def __truediv__(self, other): return IntDiv(int(self) // int(other))
+        def __mul__(self, other): return IntDiv(int(self) * int(other)) if isinstance(other, int) else Fraction(int(self)) * other
+        __rmul__ = __mul__
+        def __add__(self, other): return IntDiv(int(self) + int(other)) if isinstance(other, int) else Fraction(int(self)) + other
+        def __sub__(self, other): return IntDiv(int(self) - int(other)) if isinstance(other, int) else Fraction(int(self)) - other
+    ns['ToInt'] = lambda x: IntDiv(math.floor(x))
+    ns['sample_count'] = IntDiv(ns['sample_count'])
+    if kind == 'extents':
+        ret.size = IntDiv(ret.size)
+    try:
+        for k_, e_ in sp.extra.items():
+            if k_.startswith('let.'):
+                ns[k_[4:]] = eval(e_, {'__builtins__': {}}, ns)
+        return bool(eval(sp.ensures[m.group(1)], {'__builtins__': {}}, ns))
+    except Exception:
+        return None
+
+
+def _dbl(fr):
+    from fractions import Fraction
+    return repr(float(fr))
+
+
+def _array(model, name, n):
+    """values 0..n-1 of a z3 array constant printed as Store(Store(K(Int, d), i, v), ...) or as a lambda/ite"""
+    txt = None
+    for k, v in model.items():
+        if k.startswith(name + '!'):
+            txt = v
+    if txt is None:
+        return None
+    txt = txt.replace('\n', ' ')
+    m = re.search(r'K\((?:Int|Real),\s*(-?[\d/]+)\)', txt)
+    if not m:
+        return None
+    default = _frac(m.group(1))
+    vals = {}
+    for mm in re.finditer(r',\s*(-?\d+),\s*(-?[\d/]+)\)', txt):
+        vals.setdefault(int(mm.group(1)), _frac(mm.group(2)))
+    # Store chains print innermost first: the outermost (last) store wins
+    vals = {}
+    for mm in re.finditer(r',\s*(-?\d+),\s*(-?[\d/]+)\)', txt):
+        vals[int(mm.group(1))] = _frac(mm.group(2))
+    return [vals.get(i, default) for i in range(n)]
 
 
 def replay_decoder(pid, P, specs, r, failed, outdir):
